@@ -446,3 +446,157 @@ class GetIndices(Family):
         ctx.prove("post.one hit per queried key, in query order", z3.And(cnt == q, R(i) == i), pool=[i, q - 1, z3.IntVal(0), cnt - 1])
         ctx.prove("post.offsets[i] is the position of keys[i] in its bucket", z3.And(0 <= O(i), O(i) < ks.L(H(i)), KD(ks.S(H(i)) + O(i)) == Q(i)),
                   pool=[i, q - 1, z3.IntVal(0), cnt - 1])
+
+
+def _bucket_lemmas(ctx, st):
+    """The counting argument behind HashTable.__init__ (five inductions, each a base and a step obligation):
+    hs = sorted hashes (length N, values in [0, m)), CNT(v, i) = #{t < i : hs[t] == v} (np.unique's counts), lengths[h] scattered from
+    the counts, PS = prefix sums of lengths (RaggedShape.__init__), LT(h, i) = #{t < i : hs[t] < h} (ghost spec function).
+      D  CNT(h, i) > 0  =>  some t < i has hs[t] == h          (witness)          E  lengths[h] == CNT(h, N)
+      A' LT(h+1, i) == LT(h, i) + CNT(h, i)                     Z  LT(0, i) == 0    A  PS(h) == LT(h, N)
+      P  partition: LT(h, i) <= i, hs[LT(h,i)] >= h if LT(h,i) < i, hs[LT(h,i)-1] < h if LT(h,i) > 0   (hs sorted)
+    Returns the ghost functions."""
+    m, N = st["m"], st["N"]
+    uq = ctx.ghost["uniques"][-1]
+    CNT, uniq, K_, grp, hs = uq["CNT"], uq["uniq"], uq["K"], uq["grp"], uq["a"]
+    pss = [p for p in ctx.ghost["prefix_sums"] if p["n"].eq(z3.simplify(m)) or True]
+    ps, Ls = pss[-1]["ps"], pss[-1]["x"]
+    sc = ctx.ghost["scatters"][-1]
+    Z, One = z3.IntVal(0), z3.IntVal(1)
+    LT = z3.Function(fresh_name("LT"), z3.IntSort(), z3.IntSort(), z3.IntSort())
+    ctx.assume_forall("LT.base (spec)", lambda h_: LT(h_, 0) == 0)
+    ctx.assume_forall("LT.step (spec)", lambda h_, i_: z3.Implies(z3.And(0 <= i_, i_ < N), LT(h_, i_ + 1) == LT(h_, i_) + z3.If(hs(i_) < h_, 1, 0)), arity=2)
+    h, i = z3.Int("h"), z3.Int("i")
+    rng_i = z3.And(0 <= i, i < N)
+    ctx.prove_then_assume("lemma0: the sorted hashes are bucket numbers", z3.Implies(rng_i, z3.And(0 <= hs(i), hs(i) < m)), pool=[i], kind="lemma")
+    ctx.assume_forall("lemma0 for all i", lambda i_: z3.Implies(z3.And(0 <= i_, i_ < N), z3.And(0 <= hs(i_), hs(i_) < m)))
+    # D
+    wt = z3.Function(fresh_name("occ"), z3.IntSort(), z3.IntSort(), z3.IntSort())
+    Dp = lambda h_, i_, w_: z3.Implies(CNT(h_, i_) > 0, z3.And(0 <= w_, w_ < i_, hs(w_) == h_))
+    ctx.prove("lemmaD.base", Dp(h, Z, Z), pool=[h, Z], kind="lemma")
+    ctx.prove("lemmaD.step", z3.Implies(z3.And(rng_i, Dp(h, i, wt(h, i))), Dp(h, i + 1, z3.If(hs(i) == h, i, wt(h, i)))), pool=[h, i, i + 1, wt(h, i)], kind="lemma")
+    ctx.assume_forall("lemmaD (by induction on i)", lambda h_, i_: z3.Implies(z3.And(0 <= i_, i_ <= N), Dp(h_, i_, wt(h_, i_))), arity=2)
+    # E
+    w0 = wt(h, N)
+    ctx.prove("lemmaE: lengths[h] == CNT(h, N)", z3.Implies(z3.And(0 <= h, h < m), Ls(h) == CNT(h, N)),
+              pool=[h, N, w0, grp(w0), sc["wit"](h), uniq(sc["wit"](h)), K_, uq["first"](sc["wit"](h)), uq["first"](grp(w0))], kind="lemma")
+    ctx.assume_forall("lemmaE for all h", lambda h_: z3.Implies(z3.And(0 <= h_, h_ < m), Ls(h_) == CNT(h_, N)))
+    # A'
+    ctx.prove("lemmaA'.base", LT(h + 1, Z) == LT(h, Z) + CNT(h, Z), pool=[h, h + 1, Z], kind="lemma")
+    ctx.prove("lemmaA'.step", z3.Implies(z3.And(rng_i, LT(h + 1, i) == LT(h, i) + CNT(h, i)), LT(h + 1, i + 1) == LT(h, i + 1) + CNT(h, i + 1)),
+              pool=[h, h + 1, i, i + 1], kind="lemma")
+    ctx.assume_forall("lemmaA' (by induction on i)", lambda h_, i_: z3.Implies(z3.And(0 <= i_, i_ <= N), LT(h_ + 1, i_) == LT(h_, i_) + CNT(h_, i_)), arity=2)
+    # Z
+    ctx.prove("lemmaZ.base", LT(Z, Z) == 0, pool=[Z], kind="lemma")
+    ctx.prove("lemmaZ.step", z3.Implies(z3.And(rng_i, LT(Z, i) == 0), LT(Z, i + 1) == 0), pool=[Z, i, i + 1], kind="lemma")
+    ctx.assume_forall("lemmaZ (by induction on i)", lambda i_: z3.Implies(z3.And(0 <= i_, i_ <= N), LT(Z, i_) == 0))
+    # A
+    ctx.prove("lemmaA.base: PS(0) == LT(0, N)", ps(0) == LT(Z, N), pool=[Z, N], kind="lemma")
+    ctx.prove("lemmaA.step", z3.Implies(z3.And(0 <= h, h < m, ps(h) == LT(h, N)), ps(h + 1) == LT(h + 1, N)), pool=[h, h + 1, N], kind="lemma")
+    ctx.assume_forall("lemmaA (by induction on h): the start of bucket h is the number of smaller hashes", lambda h_: z3.Implies(z3.And(0 <= h_, h_ <= m), ps(h_) == LT(h_, N)))
+    # P
+    Pp = lambda h_, i_: z3.And(0 <= LT(h_, i_), LT(h_, i_) <= i_, z3.Implies(LT(h_, i_) < i_, hs(LT(h_, i_)) >= h_), z3.Implies(LT(h_, i_) > 0, hs(LT(h_, i_) - 1) < h_))
+    ctx.prove("lemmaP.base", Pp(h, Z), pool=[h, Z], kind="lemma")
+    ctx.prove("lemmaP.step (uses sortedness)", z3.Implies(z3.And(rng_i, Pp(h, i)), Pp(h, i + 1)), pool=[h, i, i + 1, LT(h, i), LT(h, i) - 1, LT(h, i) + 1], kind="lemma")
+    ctx.assume_forall("lemmaP (by induction on i)", lambda h_, i_: z3.Implies(z3.And(0 <= i_, i_ <= N), Pp(h_, i_)), arity=2)
+    return {"LT": LT, "ps": ps, "Ls": Ls, "hs": hs, "CNT": CNT}
+
+
+@register
+class TableInit(Family):
+    """HashTable.__init__(keys, values, mod): establishes the bucket invariant that every lookup relies on -
+    m = mod buckets; every cell a of the bucketed key array holds keys[args[a]] for a permutation args of the input positions, lies in bucket
+    hash(its key), and the value array has the same geometry with values[args[a]] at the same cell; nothing is lost or duplicated (args is a
+    permutation); the constructor's own size check cannot fail.  The hash is the abstract function of HashTable._get_hash's contract."""
+    name = "HashTable.__init__"
+    qualname = "npstructures.hashtable:HashTable.__init__"
+    serves = ["C11", "C12"]
+    timeout_ms = 30000
+    assumed = ["callee contract HashTable._get_hash: a function of the key with values in [0, mod) (proved in its own family)",
+               "numpy.argsort: a sorting permutation (witness form, audited)", "numpy.unique(return_counts=True): counting function (audited)",
+               "numpy fancy assignment (witness form)", "numpy.cumsum = prefix sums (RaggedShape.__init__, proved in its own family, executed here)"]
+
+    def extra_functions(self):
+        return ["HashTable._build_ragged_array", "RaggedArray.__init__", "RaggedShape.__init__"]
+
+    def _setup(self, ctx):
+        from npstructures.hashtable import HashTable
+        m, N = z3.Int("mod"), z3.Int("N")
+        ctx.assume(z3.And(m >= 1, N >= 1))
+        keys = SymArr.symbolic("keys", N, "int", np.int64, assume_len=False)
+        vals = SymArr.symbolic("vals", N, "elem", np.int64, assume_len=False)
+        HASH = z3.Function(fresh_name("hash"), z3.IntSort(), z3.IntSort())
+        ctx.assume_forall("hash range", lambda k_: z3.And(0 <= HASH(k_), HASH(k_) < m))
+        st = {"m": m, "N": N, "keys": keys, "vals": vals, "HASH": HASH}
+        ctx.ghost["st"] = st
+        ctx.add_index(z3.IntVal(0), m, N, m - 1, N - 1)
+        return st
+
+    def late_lemmas(self, ctx, kind, exc):
+        st = ctx.ghost["st"]
+        if ctx.ghost.get("uniques") and ctx.ghost.get("prefix_sums") and ctx.ghost.get("scatters") and not isinstance(exc, IndexError):
+            g = _bucket_lemmas(ctx, st)
+            m, N = st["m"], st["N"]
+            LT, hs = g["LT"], g["hs"]
+            # all hashes are < m, so LT(m, N) == N: the bucket lengths add up to the number of keys
+            ctx.prove_then_assume("late.lemma: the bucket lengths add up to the number of keys", g["ps"](m) == N,
+                                  pool=[m, N, LT(m, N), LT(m, N) - 1, LT(m, N) + 1, z3.IntVal(0)], kind="lemma")
+
+    def run(self, ctx, kind):
+        from npstructures.hashtable import HashTable
+        st = self._setup(ctx)
+        m, N, keys, vals, HASH = st["m"], st["N"], st["keys"], st["vals"], st["HASH"]
+        Kf, Vf = keys.fn, vals.fn
+        old_hash = HashTable.__dict__["_get_hash"]
+
+        def hash_stub(self_, k_):
+            ksn = k_.snapshot()
+            return SymArr.fresh(k_.shape_, lambda ii: HASH(ksn(ii)), "int", np.int64)
+        HashTable._get_hash = hash_stub
+        try:
+            t = HashTable(keys, vals, mod=SInt(m))
+        finally:
+            HashTable._get_hash = old_hash
+        g = _bucket_lemmas(ctx, st)
+        LT, ps, hs = g["LT"], g["ps"], g["hs"]
+        ag = ctx.ghost["argsorts"][-1]
+        perm, inv = ag["perm"], ag["inv"]
+        sh = t._keys._shape
+        KD = t._keys.ravel()
+        VD = t._values.ravel()
+        ctx.prove("post.mod buckets", I(sh.n_rows) == m)
+        ctx.prove("post.keys and values share one geometry object", z3.BoolVal(t._values._shape is t._keys._shape))
+        ctx.prove("post.as many cells as keys", z3.And(dim_term(KD.shape_[0]) == N, dim_term(VD.shape_[0]) == N, ps(m) == N),
+                  pool=[m, N, LT(m, N), LT(m, N) - 1, LT(m, N) + 1, z3.IntVal(0)])
+        a = z3.Int("a")
+        ctx.skolem(z3.And(0 <= a, a < N))
+        b = hs(a)
+        ctx.prove("post.cell a holds input key args[a] and its value, args a permutation of the input positions",
+                  z3.And(KD.get(a) == Kf(perm(a)), VD.get(a) == Vf(perm(a)), 0 <= perm(a), perm(a) < N, inv(perm(a)) == a), pool=[a, perm(a)])
+        ctx.prove("post.every input key is in exactly one cell", z3.And(0 <= inv(a), inv(a) < N, perm(inv(a)) == a, KD.get(inv(a)) == Kf(a)), pool=[a, inv(a)])
+        ctx.prove_then_assume("post.lemma: the sorted hash at cell a is the hash of the key stored there", b == HASH(KD.get(a)), pool=[a, perm(a)])
+        pool = [a, a + 1, b, b + 1, N, m, LT(b, N), LT(b, N) - 1, LT(b + 1, N), LT(b + 1, N) - 1]
+        ctx.prove("post.bucket invariant: cell a lies in bucket hash(key at a):  starts[b] <= a < starts[b] + lengths[b]",
+                  z3.And(0 <= b, b < m, sh.starts.get(b) <= a, a < sh.starts.get(b) + sh.lengths.get(b)), pool=pool)
+        ctx.prove("post.inputs not modified", z3.BoolVal(keys.buf.writes == 0 and vals.buf.writes == 0))
+
+    def concrete(self, case):
+        from npstructures import HashTable
+        ks, mod = case["keys"], case["mod"]
+        t = HashTable(np.array(ks), np.array([10 * k for k in ks]), mod=mod)
+        rows = t._keys.tolist()
+        vrows = t._values.tolist()
+        ok = len(rows) == mod and sorted(x for r in rows for x in r) == sorted(ks) and all(k % mod == h for h, r in enumerate(rows) for k in r) and \
+            all(v == 10 * k for r, vr in zip(rows, vrows) for k, v in zip(r, vr))
+        if not ok:
+            return {"msg": f"HashTable({ks}, 10*keys, mod={mod}): buckets {rows}, values {vrows}", "sig": "wrong:table-init"}
+
+    def concretise(self, kind, model, ghost):
+        return {"keys": [7, 2, 12, 5], "mod": 5}
+
+    def bounded_cases(self, tier, seed):
+        import itertools
+        for n in range(1, 5):
+            for ks in itertools.permutations([0, 3, 4, 7, 9, -2], n):
+                for mod in (1, 2, 3, 5):
+                    yield {"keys": list(ks), "mod": mod}
